@@ -332,7 +332,14 @@ func (g *Gen) fill(v reflect.Value, depth int) {
 		v.Set(p)
 	case reflect.Struct:
 		for i := 0; i < v.NumField(); i++ {
+			if readTag(v.Type().Field(i)).skip {
+				continue // nbt:"-": not part of the encoding, stays zero so that equality is meaningful
+			}
 			g.fill(v.Field(i), depth+1)
+			if f := v.Field(i); (f.Kind() == reflect.Float32 || f.Kind() == reflect.Float64) && f.Float() == 0 && readTag(v.Type().Field(i)).omitEmpty {
+				// omitempty treats -0.0 as empty (as encoding/json does) and -0.0 == 0.0 in Go: not demanded
+				f.SetFloat(0)
+			}
 		}
 	case reflect.Interface:
 		dv := g.dynValue(depth)
